@@ -25,6 +25,8 @@ const prelude = `
 (declare-fun bzero (Int) Bytes)
 (declare-fun bempty () Bytes)
 (declare-fun dyntype (Ref) Int)
+(declare-sort Time 0)
+(declare-fun zero!Time () Time)
 (declare-fun born (Ref) Int)
 (assert (= (born nil) 0))
 (declare-fun maplen ((Array Int Bool)) Int)
@@ -59,7 +61,7 @@ var bytesAxioms = []smtAxiom{
 	{"bupd_at", []string{"bupd", "bat"}, `(assert (forall ((b Bytes) (o Int) (x Bytes) (i Int)) (! (=> (and (<= 0 o) (<= (+ o (blen x)) (blen b))) (= (bat (bupd b o x) i) (ite (and (<= o i) (< i (+ o (blen x)))) (bat x (- i o)) (bat b i)))) :pattern ((bat (bupd b o x) i)))))`},
 	{"bupd_full", []string{"bupd"}, `(assert (forall ((b Bytes) (o Int) (x Bytes)) (! (=> (and (= o 0) (= (blen x) (blen b))) (= (bupd b o x) x)) :pattern ((bupd b o x)))))`},
 	{"bset_len", []string{"bset"}, `(assert (forall ((b Bytes) (i Int) (v Int)) (! (= (blen (bset b i v)) (blen b)) :pattern ((bset b i v)))))`},
-	{"bset_at", []string{"bset", "bat"}, `(assert (forall ((b Bytes) (i Int) (v Int) (j Int)) (! (= (bat (bset b i v) j) (ite (= j i) v (bat b j))) :pattern ((bat (bset b i v) j)))))`},
+	{"bset_at", []string{"bset", "bat"}, `(assert (forall ((b Bytes) (i Int) (v Int) (j Int)) (! (=> (and (<= 0 i) (< i (blen b)) (<= 0 v) (< v 256)) (= (bat (bset b i v) j) (ite (= j i) v (bat b j)))) :pattern ((bat (bset b i v) j)))))`},
 	{"bset_slice", []string{"bset", "bslice"}, `(assert (forall ((b Bytes) (i Int) (v Int) (lo Int) (hi Int)) (! (=> (or (<= hi i) (> lo i)) (= (bslice (bset b i v) lo hi) (bslice b lo hi))) :pattern ((bslice (bset b i v) lo hi)))))`},
 }
 
@@ -81,6 +83,7 @@ type World struct {
 	addr      map[string]*Addr // address term text -> structure
 	specSyms  map[string]bool
 	userAx    []smtAxiom
+	lemmaAx   []smtAxiom
 	fresh     int
 	notes     map[string]int
 	globalsRO map[*ssa.Global]bool
@@ -156,6 +159,9 @@ func isString(t types.Type) bool {
 
 // SortOf maps a Go type to an SMT sort.
 func (w *World) SortOf(t types.Type) Sort {
+	if s, ok := opaqueSort(t); ok {
+		return s
+	}
 	switch u := t.Underlying().(type) {
 	case *types.Basic:
 		switch {
@@ -250,6 +256,9 @@ func (w *World) StructGet(t types.Type, v Term, i int) Term {
 
 // Zero returns the zero value of a Go type.
 func (w *World) Zero(t types.Type) Term {
+	if s, ok := opaqueSort(t); ok {
+		return Term{"zero!" + string(s), s}
+	}
 	switch u := t.Underlying().(type) {
 	case *types.Basic:
 		switch {
@@ -465,4 +474,25 @@ func (w *World) NotesList() []string {
 	}
 	sort.Strings(ks)
 	return ks
+}
+
+// opaqueSort: library struct types that are modelled as values of an
+// uninterpreted sort instead of being decomposed into their fields.
+func opaqueSort(t types.Type) (Sort, bool) {
+	if n, ok := types.Unalias(t).(*types.Named); ok && n.Obj().Pkg() != nil {
+		switch n.Obj().Pkg().Path() + "." + n.Obj().Name() {
+		case "time.Time":
+			return "Time", true
+		}
+	}
+	return "", false
+}
+
+// asStruct is t's struct type unless t is modelled opaquely.
+func asStruct(t types.Type) (*types.Struct, bool) {
+	if _, op := opaqueSort(t); op {
+		return nil, false
+	}
+	st, ok := t.Underlying().(*types.Struct)
+	return st, ok
 }
